@@ -53,6 +53,14 @@ def handle : List String → String
     | some [r], some b, some a =>
       if holdsStep r b a then "true" else "false rule-step-differs-from-documented-meaning"
     | _, _, _ => "bad-op"
+  | ["stack", cred, rules, m] =>
+    -- the request modifier stack in the code's order over the map the rules see, then `Request.write`:
+    -- `ok <User-Agent line: hex | - (no line)> <Authorization values>`
+    match optBytes cred, decodeRules rules, decodeMap m with
+    | some c, some rs, some h =>
+      let ua := match hopUA stackOrder c rs h with | none => "-" | some v => hexOfBytes v
+      s!"ok {ua} {hexList (hopAuthorization stackOrder c rs h)}"
+    | _, _, _ => "bad-op"
   | ["applies", l, m] =>
     let l? : Option RuleList := match l with
       | "header" => some .header | "connect-header" => some .connectHeader
